@@ -335,6 +335,16 @@ def check_queue_order(run, res, want=('C14', 'C15')):
         res.violate('recall-return', {'want_none': p['ret'] is None},
                     'op#%d recall() returned %r, the defer model predicts %r' % (i, ob.ret, p['ret']))
         return
+    if k == 'sib_rtc':
+      exp = [ob.sib_pred] if ob.sib_pred is not None else []
+      if ob.sib_got != exp:
+        res.violate('dispatch-order', {'op': 'second-chart'},
+                    'op#%d: next_rtc of the second queued chart dispatched %s, a deque driven by that chart\'s own operations predicts %s' % (i, ob.sib_got, exp))
+        return
+    if ob.sib_queue is not None and ob.sib_model is not None and ob.sib_queue != ob.sib_model:
+      res.violate('queue-contents', {'op': 'second-chart'},
+                  'after op#%d %s the queue of the second queued chart holds %s, the deque model of its own operations %s' % (i, ob.op, ob.sib_queue, ob.sib_model))
+      return
     if ob.queue is not None and ob.model_q is not None and ob.queue != ob.model_q:
       res.violate('queue-contents', {'op': k}, 'after op#%d %s the queue holds %s, the deque model %s' % (i, ob.op, ob.queue, ob.model_q))
       return
